@@ -914,8 +914,6 @@ def truncation_points(s: str):
 DAG_CHAINS = {
     'tuple': ('!{p}0 = i32\n', '!{p}{i} = tuple<!{p}{j}, !{p}{j}>\n', '!{p}{n}'),
     'func': ('!{p}0 = i32\n', '!{p}{i} = (!{p}{j}) -> !{p}{j}\n', '!{p}{n}'),
-    'func2': ('!{p}0 = i32\n', '!{p}{i} = (!{p}{j}, !{p}{j}) -> ()\n', '!{p}{n}'),
-    'complex-tuple': ('!{p}0 = tuple<i1, i1>\n', '!{p}{i} = tuple<!{p}{j}, i1, !{p}{j}>\n', '!{p}{n}'),
     'array': ('#{p}0 = 1 : i32\n', '#{p}{i} = [#{p}{j}, #{p}{j}]\n', '#{p}{n}'),
     'dict': ('#{p}0 = 1 : i32\n', '#{p}{i} = {{x = #{p}{j}, y = #{p}{j}}}\n', '#{p}{n}'),
     'array-of-type': ('#{p}0 = i32\n', '#{p}{i} = [#{p}{j}, #{p}{j}]\n', '#{p}{n}'),
@@ -952,7 +950,7 @@ DAG_ATTR_USES = {
     'loc-fused-metadata': '"test.op"() : () -> () loc(fused<{X}>[unknown])',
     'equal-chain-in-dict': '"test.op"() {{a = {X}, b = {Y}}} : () -> ()',
 }
-DAG_KS = [6, 10, 12, 14, 16, 18, 20, 22, 24, 26]
+DAG_KS = [6, 9, 12, 15, 18, 21, 24, 27]  # +3 per step: an exponential (2^k) path grows 8x per step
 
 
 def dag_families():
